@@ -8,6 +8,7 @@ import Driver.Err
 import Driver.Flat
 import Driver.Derived
 import Driver.Xen
+import Driver.Sys
 
 def main (args : List String) : IO UInt32 := do
   let stdin ← IO.getStdin
@@ -22,4 +23,5 @@ def main (args : List String) : IO UInt32 := do
   | ["flat"] => Driver.Flat.run stdin; return 0
   | ["derived"] => Driver.Derived.run stdin; return 0
   | ["xen"] => Driver.Xen.run stdin; return 0
+  | ["sys"] => Driver.Sys.run stdin; return 0
   | _ => IO.eprintln "usage: kdfdrv <stream>"; return 2
